@@ -105,6 +105,10 @@ fn scenario(pr: &Params) -> Verdict {
         let mut sock = sock;
         let total = early + n + 2;
         for i in 0..total {
+            // time passes between two calls of the application: everything else may run here
+            if i > 0 {
+                world::yield_now().await;
+            }
             let stable = i >= early;
             if i == early {
                 world::wait_cond("all-joined").await;
@@ -150,7 +154,7 @@ fn scenario(pr: &Params) -> Verdict {
         world::wait_cond("never").await;
         drop(sock);
     });
-    let end = world::run(e3::HORIZON * 4);
+    let end = world::run(e3::HORIZON * (4 + n as u64 / 4));
     let mut v = Verdict::default();
     v.truncated = end != world::RunEnd::Quiescent;
     let what = format!("{} with {} peers, message shape {}, write mode {} on peer 0, {} early sends, policy {}", ty.name(), n, pr.shape, pr.wmode, pr.early_sends, pr.policy);
@@ -646,6 +650,19 @@ pub fn run(tier: Tier, replay: Option<String>) -> i32 {
             }
         }
     }
+    // scale family (not exhaustive in n): many peers, default schedules - a table, bitmap or window of some plausible
+    // constant size shows only beyond that size
+    for ty in [Ty::Push, Ty::Dealer, Ty::Req] {
+        for &peers in tier.pick(&[9usize, 17, 33, 65, 130][..], &[9usize, 17, 33, 65, 130, 257, 520][..]) {
+            for policy in 0..3u8 {
+                for early in [0usize, 2] {
+                    let pr = Params { ty, peers, shape: 0, wmode: 0, early_sends: early, policy };
+                    let pr2 = pr.clone();
+                    jobs.push(e3::job(format!("C10/scale/{}/{}p/early{}/policy{}", ty.name(), peers, early, policy), pj(&pr), 0, 1000, move || scenario(&pr2)));
+                }
+            }
+        }
+    }
     for ty in [Ty::Push, Ty::Dealer, Ty::Req] {
         for peers in 1..=3usize {
             for policy in 0..3u8 {
@@ -686,7 +703,7 @@ pub fn run(tier: Tier, replay: Option<String>) -> i32 {
     ck.cov("transitions", ex);
     ck.cov("traces_validated_against_impl", ex);
     ck.cov("exhaustive", ck.coverage.get("e3_scenarios_capped").and_then(|v| v.as_u64()) == Some(0));
-    ck.cov("explanation", "PUSH, DEALER and REQ (REQ against echo peers with a recv between sends) x 0..2 (thorough 3) raw peers x 3 message shapes (1 frame / 3 frames with an empty one / 200 kB) x write mode of one connection (accept all / a few bytes per write / stall-then-resume as scripted environment events) x sends racing with the joins or not x 3 default policies, every schedule within the deviation bound (each attach is an actor the scheduler may run before, between or during sends; yield points after pop / after upsert / after rr push). Oracle evaluated at the very step send returns: exactly one peer's application bytes (bytes accepted by the pipe after greeting+READY) grew, by exactly the reference encoding of the message with nothing left in the framed writer; with all n peers joined any n consecutive successful sends hit n distinct peers; with no peer the send fails with ReturnToSender carrying identical frames and no wire grows. Peer-loss family: 1-3 peers die one after the other (failing writes) while sends go on: a send to a surviving peer puts exactly the message's encoding on that wire, and once nobody is left the send hands the message back intact. Reconnect family: a peer with an announced identity dies (noticed through failing sends, or not yet noticed) and a new connection announces the same identity; afterwards consecutive successful sends must alternate strictly between the two connected peers. Abandoned-send family: after one healthy round peer 0's connection stops accepting data, a send is abandoned while it waits for it (dropped once nothing else can happen, as a timeout does, or after 1..2 (thorough 4) polls), the connection recovers: every later send must succeed, successful sends rotate strictly, every wire carries whole messages only and each accepted message exactly once. states = distinct observed outcomes; transitions = executions.");
+    ck.cov("explanation", "PUSH, DEALER and REQ (REQ against echo peers with a recv between sends) x 0..2 (thorough 3) raw peers x 3 message shapes (1 frame / 3 frames with an empty one / 200 kB) x write mode of one connection (accept all / a few bytes per write / stall-then-resume as scripted environment events) x sends racing with the joins or not x 3 default policies, every schedule within the deviation bound (each attach is an actor the scheduler may run before, between or during sends; yield points after pop / after upsert / after rr push). Oracle evaluated at the very step send returns: exactly one peer's application bytes (bytes accepted by the pipe after greeting+READY) grew, by exactly the reference encoding of the message with nothing left in the framed writer; with all n peers joined any n consecutive successful sends hit n distinct peers; with no peer the send fails with ReturnToSender carrying identical frames and no wire grows. Peer-loss family: 1-3 peers die one after the other (failing writes) while sends go on: a send to a surviving peer puts exactly the message's encoding on that wire, and once nobody is left the send hands the message back intact. Reconnect family: a peer with an announced identity dies (noticed through failing sends, or not yet noticed) and a new connection announces the same identity; afterwards consecutive successful sends must alternate strictly between the two connected peers. Scale family (not exhaustive in n): 9 / 17 / 33 / 65 / 130 (thorough 257, 520) peers under the 3 default schedules: the same per-send oracle and strict rotation over n+2 sends. Abandoned-send family: after one healthy round peer 0's connection stops accepting data, a send is abandoned while it waits for it (dropped once nothing else can happen, as a timeout does, or after 1..2 (thorough 4) polls), the connection recovers: every later send must succeed, successful sends rotate strictly, every wire carries whole messages only and each accepted message exactly once. states = distinct observed outcomes; transitions = executions.");
     ck.assume("a send may legitimately fail or succeed while a peer is between its registration steps; rotation is judged over the phase after every attach has returned");
     ck.conclude()
 }
